@@ -35,10 +35,10 @@ Capture(v, mint, closed) ==
 Cases == {}    \* cases come from behaviours of Spec, not from an enumeration
 Expected(c) == 0
 Post(c) == LET accept == c.via = "view"
-               tok == IF c.via = "view" THEN c.pre_view ELSE 0
+               tok == IF c.via \in {"view", "tokenonly"} THEN c.pre_view ELSE 0
                pl == {c.pre_live[i] : i \in 1..Len(c.pre_live)}
-               st == Exec([l |-> pl, b |-> tok, mint |-> 0, closed |-> FALSE, err |-> "ok", id |-> c.next, opened |-> 0],
-                          c.script, accept, c.drain)
+               st0 == [l |-> pl, b |-> tok, mint |-> 0, closed |-> FALSE, err |-> "ok", id |-> c.next, opened |-> 0]
+               st == IF tok # 0 /\ tok \notin pl THEN [st0 EXCEPT !.err = "session_lost"] ELSE Exec(st0, c.script, accept, c.drain)
            IN [live |-> st.l, view |-> IF accept THEN Capture(c.pre_view, st.mint, st.closed) ELSE c.pre_view,
                out |-> st.err, opened |-> st.opened]
 Conforms(c, o) ==
@@ -46,7 +46,7 @@ Conforms(c, o) ==
       pl == {c.pre_live[i] : i \in 1..Len(c.pre_live)}
       grew == ol \ pl # {}
       p == Post(c) IN
-       {"ViewExact"              : x \in {1} \cap (IF c.via = "view" => ol = (IF o.view = 0 THEN {} ELSE {o.view}) THEN {} ELSE {1})}
+       {"ViewExact"              : x \in {1} \cap (IF (c.via = "view" /\ ~c.tainted) => ol = (IF o.view = 0 THEN {} ELSE {o.view}) THEN {} ELSE {1})}
   \cup {"OpenOnlyWithOptIn"      : x \in {1} \cap (IF grew => c.via = "view" THEN {} ELSE {1})}
   \cup {"NeverOpenWhileDraining" : x \in {1} \cap (IF grew => ~c.drain THEN {} ELSE {1})}
   \cup {"DrainErrorIsTyped"      : x \in {1} \cap (IF p.out = "server_draining" => o.out = "server_draining" THEN {} ELSE {1})}
